@@ -34,6 +34,7 @@ class FWorker(env.BaseWorker):
         self.inc = IncTree(root) if snapshots else None
         self.injected = 0
         self.real = ()
+        self.cur_site = -1
 
     def _site(self, op, pred=None):
         if pred is not None and not pred():
@@ -45,6 +46,9 @@ class FWorker(env.BaseWorker):
                 dirty, env.STATE.dirty = env.STATE.dirty, set()
                 self.inc.refresh(dirty)
             self.snapshots.append((i, dict(self.inc.files), set(self.inc.dirs)))
+        self.cur_site = i
+        if self.fault is not None and self.fault[1] == "SHORT":
+            return
         if is_fault_site(op):
             dest = self.real[-1] if self.real else None
             if self.fault is not None and self.fault[0] == i:
@@ -55,6 +59,12 @@ class FWorker(env.BaseWorker):
             if dest is not None and dest in self.persist:
                 self.injected += 1
                 raise OSError(self.persist[dest], os.strerror(self.persist[dest]) + " (injected, persistent)", dest)
+
+    def adjust_write(self, op, nbytes):
+        if self.fault is not None and self.fault[1] == "SHORT" and self.fault[0] == self.cur_site and nbytes > 1:
+            self.injected += 1
+            return max(1, nbytes // 2)
+        return nbytes
 
     def point(self, op, pred=None):
         self._site(op, pred)
